@@ -435,7 +435,7 @@ class StructureSimilarity(object):
                 # exclude Hydrogen
                 # (a residue without any heavy atom can not make a contact:
                 # it is treated like a residue missing from the decoy)
-                if name[0] != 'H':
+                if not name.startswith('H'):
                     if key not in residue_xyz.keys():
                         residue_xyz[key] = []
                         residue_name[key] = []
